@@ -14,6 +14,7 @@ def spec(f):
 
 
 __file_spec__ = [_c.__file__, __file__]
+STABLE_BINDERS = True  # a clause evaluated twice over the same values yields the identical term (re-exported postconditions)
 
 CLASSES = dict(_c.CLASSES)
 LEMMAS = dict(_c.LEMMAS)
@@ -91,7 +92,7 @@ def written_pairs(L, P, upto):
 def only_pairs(L, P, M, upto):
     """nothing invented: a paired entry x records the partner given by the decoded pair number M[x] < upto"""
     return forall(lambda x: implies(0 <= x and x < len(L) and L[x].pair != 0,
-                                    0 <= M[x] and M[x] < upto
+                                    0 <= M[x] and M[x] < upto and 0 <= P[M[x]][0] and P[M[x]][0] < P[M[x]][1] and P[M[x]][1] < len(L)
                                     and ((P[M[x]][0] == x and L[x].pair == P[M[x]][1] + 1) or (P[M[x]][1] == x and L[x].pair == P[M[x]][0] + 1))))
 
 
@@ -131,6 +132,20 @@ class from_dotbracket:
         {"when": "after", "at": "entries = [", "label": "M0", "do": ["let M = fill(len(entries), 0 - 1)"]},
         {"when": "after", "at": "entries[i].pair = j + 1", "loop": 0, "label": "M5", "do": ["let M = upd(M, i, q0)"]},
         {"when": "after", "at": "entries[j].pair = i + 1", "loop": 0, "label": "M3", "do": ["let M = upd(M, j, q0)"]},
+        {"when": "before", "at": "return BpSeq(entries)", "label": "restate",
+         # what the rest of the function needs, restated; everything else is dropped (smaller solver context)
+         "do": ["assert len(entries) == len(dot_bracket.sequence) and len(entries) >= 0 and len(M) == len(entries)",
+                "assert forall(lambda x: implies(0 <= x and x < len(entries), entries[x].index_ == x + 1 and entries[x].sequence == dot_bracket.sequence[x]))",
+                "assert " + FRAME_ENTRY_PAIR,
+                "assert " + FRAME_ENTRY_PAIR.replace("pair", "index_"),
+                "assert " + FRAME_ENTRY_PAIR.replace("pair", "sequence"),
+                "assert written_pairs(entries, dot_bracket.pairs, len(dot_bracket.pairs))",
+                "assert only_pairs(entries, dot_bracket.pairs, M, len(dot_bracket.pairs))",
+                "keep 7"]},
+        {"when": "before", "at": "return BpSeq(entries)", "label": "valid",
+         "do": ["forall x | assert implies(0 <= x and x < len(entries), entries[x].index_ == x + 1 and 0 <= entries[x].pair and entries[x].pair <= len(entries) and entries[x].pair != x + 1)",
+                "forall x | assert implies(0 <= x and x < len(entries) and entries[x].pair > 0, entries[entries[x].pair - 1].pair == x + 1)",
+                "assert_last 2 valid(entries)"]},
     ]
 
 
